@@ -262,11 +262,19 @@ def verdict (model res : String) (A : Arr) (inScope : Bool) (pred : Arr → Opti
     | none => some ("outcome:" ++ res)
   { agree := model == res, model, fail, nontrivial := nontrivial obs A, tags }
 
+/-- inputs with a variable OUTSIDE the variable set (`≥ num_vars`) are outside the property's quantifier: no clause
+    is evaluated, whatever was observed (a panic, a value, or `hang` = the call did not return within the per-case
+    limit); the verdict only says whether the observation is the model's outcome (`OK`) or not (`DIS`) -/
+def oorVerdict (model res : String) (tags : List String) : Verdict :=
+  { agree := model == res, model, fail := none, nontrivial := false, tags := tags ++ ["oor"] }
+
 def szTag (A : Arr) : String :=
   let n := numVars A
   if A.size > 65536 then s!"n{n},big" else if n ≥ 54 then s!"wide{Nat.log2 n}" else s!"n{n}"
 
-def handle (key : String) (ins obs : List String) : Verdict :=
+def handle (key : String) (ins obs0 : List String) : Verdict :=
+  -- the watchdog's observation is the single field `hang`; the kinds with two observed fields get an empty second one
+  let obs := if obs0 == ["hang"] && (key == "C06.vpickr" || key == "C06.pickr" || key == "C06.coin") then ["hang", "~"] else obs0
   match key, ins, obs with
   | "C06.coin", [flips], [got, pos] =>
     let fl := parseBits flips
@@ -278,7 +286,8 @@ def handle (key : String) (ins obs : List String) : Verdict :=
     | some A, some x =>
       let n := numVars A; let b := b == "1"
       let canonIn := isCanon A
-      verdict (showArr (varSelect A x b)) res A (x < n)
+      if !(x < n) then oorVerdict (showArr (varSelect A x b)) res ["vsel"] else
+      verdict (showArr (varSelect A x b)) res A true
         (fun R => firstFail [checkSelect n R A [(x, b)], canonClause R])
         ["vsel", szTag A, if canonIn then "canon" else "noncanon"]
     | _, _ => Verdict.bad "args"
@@ -287,7 +296,8 @@ def handle (key : String) (ins obs : List String) : Verdict :=
     | some A, some ls =>
       let n := numVars A
       let canonIn := isCanon A
-      verdict (showArr (select A ls)) res A (ls.all (·.1 < n))
+      if !(ls.all (·.1 < n)) then oorVerdict (showArr (select A ls)) res ["select"] else
+      verdict (showArr (select A ls)) res A true
         (fun R => firstFail [checkSelect n R A ls, canonClause R])
         ["select", szTag A, s!"lits{ls.length}", if hasDup (ls.map (·.1)) then "rep" else "norep",
           if canonIn then "canon" else "noncanon"]
@@ -297,19 +307,21 @@ def handle (key : String) (ins obs : List String) : Verdict :=
     | some A, some x =>
       let n := numVars A; let b := b == "1"
       let canonIn := isCanon A
+      if !(x < n) then oorVerdict (showArr (varRestrict A x b)) res ["vres"] else
       verdict (showArr (varRestrict A x b)) res A true
         (fun R => firstFail [checkRestrict n R A [(x, b)], canonClause R])
-        ["vres", szTag A, if canonIn then "canon" else "noncanon", if x < n then "inrange" else "oor"]
+        ["vres", szTag A, if canonIn then "canon" else "noncanon", "inrange"]
     | _, _ => Verdict.bad "args"
   | "C06.restrict", [a, lits], [res] =>
     match parseArr? a, parseLits? lits with
     | some A, some ls =>
       let n := numVars A
       let canonIn := isCanon A
+      if !(ls.all (·.1 < n)) then oorVerdict (showArr (restrict A ls)) res ["restrict"] else
       verdict (showArr (restrict A ls)) res A true
         (fun R => firstFail [checkRestrict n R A ls, canonClause R])
         ["restrict", szTag A, s!"lits{ls.length}", if hasDup (ls.map (·.1)) then "rep" else "norep",
-          if canonIn then "canon" else "noncanon", if ls.all (·.1 < n) then "inrange" else "oor"]
+          if canonIn then "canon" else "noncanon", "inrange"]
     | _, _ => Verdict.bad "args"
   | "C06.vpick", [a, x], [res] =>
     match parseArr? a, x.toNat? with
@@ -319,10 +331,7 @@ def handle (key : String) (ins obs : List String) : Verdict :=
         verdict (showO (varPickO A x)) res A true
           (fun R => firstFail [checkVarPick n R A x false, checkPick n R A [x], canonClause R]) ["vpick", szTag A]
       else
-        -- out of range: the only claim is the outcome (a refusal by panic, never a value)
-        let model := showO (varPickO A x)
-        { agree := model == res, model, fail := if res == "panic" then none else some "oor-not-refused",
-          nontrivial := false, tags := ["vpick", "oor"] }
+        oorVerdict (showO (varPickO A x)) res ["vpick"]
     | _, _ => Verdict.bad "args"
   | "C06.vpickr", [a, x, flips], [res, pos] =>
     match parseArr? a, x.toNat? with
@@ -335,9 +344,7 @@ def handle (key : String) (ins obs : List String) : Verdict :=
             if pos == "1" then none else some "draws"]) ["vpickr", szTag A]
         { v with agree := v.agree && pos == "1" }
       else
-        let model := showO (varPickRandomO A x coin)
-        { agree := model == res, model, fail := if res == "panic" then none else some "oor-not-refused",
-          nontrivial := false, tags := ["vpickr", "oor"] }
+        oorVerdict (showO (varPickRandomO A x coin)) res ["vpickr"]
     | _, _ => Verdict.bad "args"
   | "C06.pick", [a, vars], [res] =>
     match parseArr? a, parseVars? vars with
@@ -349,9 +356,7 @@ def handle (key : String) (ins obs : List String) : Verdict :=
           (fun R => firstFail [checkPick n R A vs, if vs.isEmpty && !isCanon A then none else canonClause R])
           ["pick", szTag A, s!"vars{vs.length}", if hasDup vs then "dup" else "nodup"]
       else
-        let model := showO (pickO A vs)
-        { agree := model == res, model, fail := if res == "panic" then none else some "oor-not-refused",
-          nontrivial := false, tags := ["pick", "oor"] }
+        oorVerdict (showO (pickO A vs)) res ["pick"]
     | _, _ => Verdict.bad "args"
   | "C06.pickr", [a, vars, flips], [res, pos] =>
     match parseArr? a, parseVars? vars with
@@ -365,9 +370,7 @@ def handle (key : String) (ins obs : List String) : Verdict :=
           ["pickr", szTag A, s!"vars{vs.length}", if hasDup vs then "dup" else "nodup"]
         { v with agree := v.agree && pos == draws }
       else
-        let model := showO (pickRandomO A vs fl)
-        { agree := model == res, model, fail := if res == "panic" then none else some "oor-not-refused",
-          nontrivial := false, tags := ["pickr", "oor"] }
+        oorVerdict (showO (pickRandomO A vs fl)) res ["pickr"]
     | _, _ => Verdict.bad "args"
   | "C06.vex", [a, x], [res] =>
     match parseArr? a, x.toNat? with
@@ -377,9 +380,7 @@ def handle (key : String) (ins obs : List String) : Verdict :=
         verdict (showO (Rel.varExistsO A x)) res A true
           (fun R => firstFail [checkQuant n R A x true, canonClause R]) ["vex", szTag A]
       else
-        let model := showO (Rel.varExistsO A x)
-        { agree := model == res, model, fail := if res == "panic" then none else some "oor-not-refused",
-          nontrivial := false, tags := ["vex", "oor"] }
+        oorVerdict (showO (Rel.varExistsO A x)) res ["vex"]
     | _, _ => Verdict.bad "args"
   | "C06.vall", [a, x], [res] =>
     match parseArr? a, x.toNat? with
@@ -389,9 +390,7 @@ def handle (key : String) (ins obs : List String) : Verdict :=
         verdict (showO (Rel.varForAllO A x)) res A true
           (fun R => firstFail [checkQuant n R A x false, canonClause R]) ["vall", szTag A]
       else
-        let model := showO (Rel.varForAllO A x)
-        { agree := model == res, model, fail := if res == "panic" then none else some "oor-not-refused",
-          nontrivial := false, tags := ["vall", "oor"] }
+        oorVerdict (showO (Rel.varForAllO A x)) res ["vall"]
     | _, _ => Verdict.bad "args"
   | _, _, _ => Verdict.bad ("key " ++ key)
 
